@@ -46,7 +46,41 @@ fn pos_of(it: &Item, seed: u64, k: u16, cap: u64) -> Vec<u64> {
     }
 }
 
+/// C13: the filter's state as an image written by the harness (layout of Trace_Bloom.tla), exact or with
+/// the dirty marker as bit count, and what the library decodes it to
+fn load(out: &mut Shards, id: usize, f: &BloomFilter) {
+    let own = f.serialize();
+    if own.len() > 600 {
+        return;
+    }
+    for dirty in [false, true] {
+        let mut img = own.clone(); // (own == the specification's encoding is what C12 checks)
+        if dirty && img.len() > 32 {
+            img[24..32].fill(0xff);
+        }
+        let r = catch(std::panic::AssertUnwindSafe(|| BloomFilter::deserialize(&img)));
+        let mut e = json!({"op":"BLoad","id":id,"dirty":dirty,"img":img,"seed8":f.seed().to_le_bytes().to_vec(),
+            "ok":false,"bits":[],"used":0,"again":[]});
+        match r {
+            Ok(Ok(back)) => {
+                let again = back.serialize();
+                e["ok"] = json!(true);
+                e["bits"] = json!(image_bits(&again));
+                e["used"] = json!(back.bits_used());
+                e["again"] = json!(again);
+            }
+            Ok(Err(err)) => e["err"] = json!(format!("{err:?}")),
+            Err(p) => {
+                out.ev(json!({"op":"Panic","in":"deserialize-variant","key":p.split(": ").next().unwrap_or(""),"msg":p}));
+                return;
+            }
+        }
+        out.ev(e);
+    }
+}
+
 fn chk(out: &mut Shards, id: usize, f: &BloomFilter) {
+    load(out, id, f);
     let b = f.serialize();
     let mut e = json!({"op":"BChk","id":id,"bits":image_bits(&b),"used":f.bits_used(),"len":b.len()});
     if b.len() <= 600 {
@@ -163,6 +197,51 @@ fn scenario(out: &mut Shards, rng: &mut Rng, nbits: u64, k: u16, seed: u64, n_it
     }
 }
 
+/// saturated words: an inverted (empty or sparse) filter used as a mask, tiny filters filled to the brim
+fn saturated(out: &mut Shards, rng: &mut Rng, nbits: u64, k: u16) {
+    out.next_run("bloom-saturated");
+    let seed = 9001u64;
+    let mk = || BloomFilterBuilder::with_size(nbits, k).seed(seed).build();
+    let mut fs = vec![mk(), mk()];
+    let cap = fs[0].capacity() as u64;
+    for id in 0..2 {
+        out.ev(json!({"op":"BNew","id":id,"cap":cap,"k":k}));
+    }
+    let r: Result<(), String> = catch(std::panic::AssertUnwindSafe(|| {
+        // mask = complement of an empty filter (every bit set)
+        fs[1].invert();
+        out.ev(json!({"op":"BInvert","id":1,"used":fs[1].bits_used()}));
+        chk(out, 1, &fs[1]);
+        for i in 0..3u64 {
+            let x = rng.next() ^ i;
+            fs[0].insert(x);
+            out.ev(json!({"op":"BIns","id":0,"p":positions(&x, seed, k, cap),"used":fs[0].bits_used()}));
+            // a single item may set fewer than k bits: it must be found all the same
+            out.ev(json!({"op":"BQ","id":0,"p":positions(&x, seed, k, cap),"res":fs[0].contains(&x)}));
+        }
+        let o = fs[1].clone();
+        fs[0].intersect(&o);
+        out.ev(json!({"op":"BInter","id":0,"src":1,"used":fs[0].bits_used()}));
+        chk(out, 0, &fs[0]);
+        // fill a filter to the brim through inserts
+        let mut n = 0;
+        while (fs[0].bits_used() as u64) < cap && n < 4000 {
+            let x = rng.next();
+            fs[0].insert(x);
+            out.ev(json!({"op":"BIns","id":0,"p":positions(&x, seed, k, cap),"used":fs[0].bits_used()}));
+            n += 1;
+        }
+        chk(out, 0, &fs[0]);
+        let o = fs[0].clone();
+        fs[1].intersect(&o);
+        out.ev(json!({"op":"BInter","id":1,"src":0,"used":fs[1].bits_used()}));
+        chk(out, 1, &fs[1]);
+    }));
+    if let Err(e) = r {
+        out.ev(json!({"op":"Panic","in":"bloom-op","key":e.split(": ").next().unwrap_or(""),"msg":e}));
+    }
+}
+
 pub fn record(args: &Args) {
     let seed = args.u64("seed", 1);
     let mut rng = Rng::new(seed ^ 0xB100);
@@ -180,6 +259,9 @@ pub fn record(args: &Args) {
                 scenario(&mut out, &mut rng, nbits, k, fseed, n_items, if thorough { 300 } else { 150 }, nbits <= 4097);
             }
         }
+    }
+    for &(nbits, k) in &[(64u64, 16u16), (64, 3), (128, 7), (192, 2), (1, 1)] {
+        saturated(&mut out, &mut rng, nbits, k);
     }
     let (runs, events) = out.finish();
     println!("{}", json!({"runs":runs,"events":events}));
